@@ -74,17 +74,17 @@ func ruleA14(r *Run, p *Prog, rule string, rels map[string]bool, want []string) 
 	found := map[string]bool{}
 	for fv := range fields {
 		if n := ownerStructName(p, rels, fv); n != "" {
-			found[n+"."+fv.Name()] = true
+			found[n+"."+fname(fv)] = true
 		}
 	}
 	for fv := range fields {
-		found[fv.Name()] = true
+		found[fname(fv)] = true
 	}
 	for g := range globals {
 		found[g.Name()] = true
 	}
 	for fv := range elemOf {
-		found[fv.Name()+"[]"] = true
+		found[fname(fv)+"[]"] = true
 	}
 	for _, w := range want {
 		if !found[w] {
@@ -127,7 +127,7 @@ func ruleA14(r *Run, p *Prog, rule string, rels map[string]bool, want []string) 
 					return
 				}
 				bad := usedAtomically(x)
-				r.Ob(rule, FnName(f)+"/"+fv.Name(), p.Pos(x.Pos()), bad == nil, true, tern(bad == nil, "field "+fv.Name()+" accessed through sync/atomic", "field "+fv.Name()+" is read or written without sync/atomic ("+instrString(bad)+") although other code accesses it atomically: data race / lost updates"))
+				r.Ob(rule, FnName(f)+"/"+fname(fv), p.Pos(x.Pos()), bad == nil, true, tern(bad == nil, "field "+fname(fv)+" accessed through sync/atomic", "field "+fname(fv)+" is read or written without sync/atomic ("+instrString(bad)+") although other code accesses it atomically: data race / lost updates"))
 			case *ssa.UnOp:
 				if x.Op != token.MUL {
 					return
@@ -153,7 +153,7 @@ func ruleA14(r *Run, p *Prog, rule string, rels map[string]bool, want []string) 
 					return
 				}
 				bad := usedAtomically(x)
-				r.Ob(rule, FnName(f)+"/"+fv.Name()+"[]", p.Pos(x.Pos()), bad == nil, true, tern(bad == nil, "element of "+fv.Name()+" accessed through sync/atomic", "an element of "+fv.Name()+" is accessed without sync/atomic ("+instrString(bad)+")"))
+				r.Ob(rule, FnName(f)+"/"+fname(fv)+"[]", p.Pos(x.Pos()), bad == nil, true, tern(bad == nil, "element of "+fname(fv)+" accessed through sync/atomic", "an element of "+fname(fv)+" is accessed without sync/atomic ("+instrString(bad)+")"))
 			}
 		})
 	}
